@@ -54,4 +54,19 @@ PROPS = {
             "load_factor (f32 division) is not under contract; HashMapTranspositionTable is a field-for-field delegating wrapper and is not re-verified",
         ],
     },
+    "C10": {
+        "title": "draw rules in search: repetition count over the history window, fifty-move threshold at 100 plies",
+        "units": ["history", "heuristic"],
+        "deciding": [r"^ZobristHistory::", r"^Heuristic::(evaluate|win_score|loss_score|draw_score)$", r"^lemma_shipped_thresholds$",
+                     r"^Bitboard::ply_clock$", r"^max_i32$", r"^SimpleHeuristic::", r"^Bitboard::is_current_in_check$"],
+        "owned": [r"^ZobristHistory::count_repetitions$", r"^Heuristic::evaluate$", r"^lemma_shipped_thresholds$", r"^Bitboard::ply_clock$"],
+        "design_ref": "DESIGN.md §3 C10",
+        "assumptions": [
+            "count_repetitions: start_index < 5000 (array length) is a precondition; the position two plies back never equals the current one (chess fact: both sides would have to pass) — assumed, not proved",
+            "std shim: core::cmp::max::<i32> (no vstd specification) routed through max_i32 with the obvious contract",
+            "not under contract: that search_negamax records every node in the history and set_position_from records every game position (generic threaded code outside the subset); the contempt offset is read as a constant",
+            "Heuristic::evaluate is verified generically in the trait; lemma_shipped_thresholds pins the associated constants of the shipped SimpleHeuristic (100 plies, 2^20 moves)",
+            "Bitboard::is_current_in_check is assumed here with contract spec/contracts/is_current_in_check.txt (verified in unit attacks, C05)",
+        ],
+    },
 }
